@@ -153,6 +153,9 @@ def judge_ops(hist, impl):
                     out.append((i, "atomic %s %s %s" % (prev_c, p, m.group(3)), "sync-atomic@k=" + m.group(1)))
         if f[0] in ("outage", "ostale") and f[1] != "up" and line.startswith("ok unchanged="):
             toks = line.split(" | ")[0].split()[1:]
+            parts = line.split(" | ")
+            # rows after the direct delete compared with the rows before it
+            toks = toks[:2] + ["delsame=%d" % (len(parts) == 3 and parts[1] == parts[2])] + toks[2:]
             out.append((i, "outage %s %s" % (f[1], " ".join(toks)), ("outage-" if f[0] == "outage" else "outage-stale-cache-") + f[1]))
         if f[0] in ("add", "del", "ssave", "sdel") and cc is not None and prev_c is not None:
             out.append((i, "cachesame %s %s" % (prev_c, cc), "cache-changed-outside-sync"))
